@@ -504,6 +504,22 @@ def decode_sbs(rows, lw, rw, pl, fl, fr):
     return [(col_slice(r, 0, lw), col_slice(r, pl, rw)) for r in rows]
 
 
+def hxl(text, raw):
+    """A line field of `linenum.sbs_block` / `linenum.blocks`: `X<hex>` = the hunk state keeps the raw line."""
+    f = hx(text)
+    return "X" + f[1:] if raw else f
+
+
+def raw_lines_supported(hook):
+    """Does the hooked build understand `X<hex>` line fields (hooks-linenum-raw.diff)?"""
+    ans = hook.ask(["cfg " + " ".join(hx(x) for x in ["-s", "--width=80"]), "linenum.sbs_block 2 1 1 1 1 1 X61 0 1 0 -"])
+    return ans[-1].startswith("ok ")
+
+
+def flags(v):
+    return f"{len(v)} " + " ".join("1" if x else "0" for x in v)
+
+
 def run_sbs_blocks(ctx, rep, hook, mdl):
     rng = ctx.rng
     cfgs = [(["--side-by-side", "--width=64", "--wrap-max-lines=unlimited"], DEFAULT_FMTS[True])]
@@ -515,6 +531,8 @@ def run_sbs_blocks(ctx, rep, hook, mdl):
                      (["--keep-plus-minus-markers"] if rng.random() < 0.3 else []), (fl, fr)))
     shapes = [(m, p) for m in range(0, 5) for p in range(0, 5) if m + p > 0]
     cases = []
+    raw_ok = raw_lines_supported(hook)
+    rep.notes["hook_raw_line_states"] = raw_ok
     # exhaustive pairing patterns for every shape; wrap counts exhaustive for small shapes, sampled otherwise
     full_wraps = ctx.n(2, 6)       # shapes with m + p <= full_wraps: every wrap-count vector in {1,2,3}^(m+p)
     for ci, (args, fmts) in enumerate(cfgs):
@@ -530,7 +548,12 @@ def run_sbs_blocks(ctx, rep, hook, mdl):
                                                                  for _ in range(ctx.n(1, 60) if ci == 0 else ctx.n(1, 6))]
                 for w in wraps:
                     a, c = gen_start(rng, small=rng.random() < 0.4), gen_start(rng, small=rng.random() < 0.4)
-                    cases.append((ci, m, p, number_alignment(al), w[:m], w[m:], a, c))
+                    # which lines keep their raw form in the hunk state (coloured input / raw styles)
+                    if raw_ok and rng.random() < 0.5:
+                        rl = tuple(rng.random() < 0.6 for _ in range(m)); rr = tuple(rng.random() < 0.6 for _ in range(p))
+                    else:
+                        rl, rr = (False,) * m, (False,) * p
+                    cases.append((ci, m, p, number_alignment(al), w[:m], w[m:], a, c, rl, rr))
     # ask the implementation (needs the text width first: one probe per config)
     reqs, sticky, idx = [], [], []
     textw = {}
@@ -544,14 +567,14 @@ def run_sbs_blocks(ctx, rep, hook, mdl):
         textw[ci] = (pl - lw - keep, pr - rw - keep, lw, rw, pl, pr)
     cur = None
     for case in cases:
-        ci, m, p, al, wl, wr, a, c = case
+        ci, m, p, al, wl, wr, a, c, rl, rr = case
         if ci != cur:
             sticky.append(len(reqs)); reqs.append("cfg " + " ".join(hx(x) for x in cfgs[ci][0])); idx.append(None); cur = ci
         tl, tr = textw[ci][0], textw[ci][1]
         minus = [line_of_rows(wl[i], tl) for i in range(m)]
         plus = [line_of_rows(wr[j], tr) for j in range(p)]
         b, d = m, p
-        r = f"linenum.sbs_block 2 {a} {b} {c} {d} {m} " + " ".join(hx(x) for x in minus) + f" {p} " + " ".join(hx(x) for x in plus) + " " + fmt_al(al)
+        r = f"linenum.sbs_block 2 {a} {b} {c} {d} {m} " + " ".join(hxl(x, q) for x, q in zip(minus, rl)) + f" {p} " + " ".join(hxl(x, q) for x, q in zip(plus, rr)) + " " + fmt_al(al)
         reqs.append(" ".join(r.split())); idx.append(case)
     impl = hook.ask(reqs, sticky=sticky)
     mreqs, msticky, back = [], [], []
@@ -560,10 +583,10 @@ def run_sbs_blocks(ctx, rep, hook, mdl):
         if case is None:
             msticky.append(len(mreqs)); mreqs.append(reqs[k]); back.append(None)
             continue
-        ci, m, p, al, wl, wr, a, c = case
+        ci, m, p, al, wl, wr, a, c, rl, rr = case
         if not ans.startswith("ok "):
             parsed[k] = None
-            mreqs.append(f"linenum.sbs_rows 2 {a} {m} {c} {p} {m} {p} {fmt_al(al)} {m} " + " ".join(map(str, wl)) + f" {p} " + " ".join(map(str, wr)))
+            mreqs.append(f"linenum.sbs_rows 2 {a} {m} {c} {p} {m} {p} {fmt_al(al)} {m} " + " ".join(map(str, wl)) + f" {p} " + " ".join(map(str, wr)) + " " + flags(rl) + " " + flags(rr))
             mreqs[-1] = " ".join(mreqs[-1].split()); back.append(k)
             continue
         f = ans.split()
@@ -572,16 +595,16 @@ def run_sbs_blocks(ctx, rep, hook, mdl):
         rwr, pos = parse_counts(f, pos)
         left, right, lw, rw, pl, pr = (int(x) for x in f[pos:pos + 6])
         parsed[k] = (rows, rwl, rwr, left, right, lw, rw, pl, pr)
-        r = f"linenum.sbs_rows 2 {a} {m} {c} {p} {m} {p} {fmt_al(al)} {m} " + " ".join(map(str, rwl)) + f" {p} " + " ".join(map(str, rwr))
+        r = f"linenum.sbs_rows 2 {a} {m} {c} {p} {m} {p} {fmt_al(al)} {m} " + " ".join(map(str, rwl)) + f" {p} " + " ".join(map(str, rwr)) + " " + flags(rl) + " " + flags(rr)
         mreqs.append(" ".join(r.split())); back.append(k)
     model = mdl.ask(mreqs, sticky=msticky) if mdl else [None] * len(mreqs)
     for mk, k in enumerate(back):
         if k is None:
             continue
         case, ans = idx[k], impl[k]
-        ci, m, p, al, wl, wr, a, c = case
+        ci, m, p, al, wl, wr, a, c, rl, rr = case
         fl, fr = cfgs[ci][1]
-        replay = dict(kind="hook-sbs", cfg=cfgs[ci][0], req=reqs[k], case=dict(m=m, p=p, al=al, wl=wl, wr=wr, a=a, c=c),
+        replay = dict(kind="hook-sbs", cfg=cfgs[ci][0], req=reqs[k], case=dict(m=m, p=p, al=al, wl=wl, wr=wr, a=a, c=c, rl=rl, rr=rr),
                       fl=fl.parts, fr=fr.parts)
         got = parsed[k]
         rep.count(f"sbs_block:shape:{m}x{p}")
@@ -600,6 +623,8 @@ def run_sbs_blocks(ctx, rep, hook, mdl):
         hit = tuple(rwl) == tuple(wl) and tuple(rwr) == tuple(wr)
         rep.count("sbs_block:wrap-target-" + ("hit" if hit else "miss"))
         rep.count("sbs_block:wrapped" if any(x > 1 for x in rwl + rwr) else "sbs_block:unwrapped")
+        if any(rl) or any(rr):
+            rep.count("sbs_block:raw-line-states:" + ("wrapped" if any(x > 1 for x in rwl + rwr) else "unwrapped"))
         rep.case(key=("sbs_block", ci, m, p, tuple(al), tuple(rwl), tuple(rwr), a, c), nontrivial=(m + p >= 2),
                  sample=dict(op="sbs_block", cfg=cfgs[ci][0], al=al, wraps=[rwl, rwr], starts=[a, c], rows=rows)
                  if (rep.evaluations % 2500 == 7) else None)
@@ -645,7 +670,7 @@ def parse_sbs_answer(ans):
 
 # ------------------------------------------------------------------ whole hunks through a real Painter
 
-def gen_blocks(rng, sbs, textw):
+def gen_blocks(rng, sbs, textw, raw_ok=False):
     blocks, kinds = [], []
     for _ in range(rng.randint(1, 6)):
         if rng.random() < 0.4:
@@ -665,12 +690,14 @@ def gen_blocks(rng, sbs, textw):
                 if sbs and rng.random() < 0.3:
                     t += " " + line_of_rows(rng.choice([2, 3]), textw)
                 plus.append(t)
-            blocks.append(("s", minus, plus))
+            rawp = rng.choice([0.0, 0.0, 0.5, 1.0]) if raw_ok else 0.0
+            blocks.append(("s", minus, plus, [rng.random() < rawp for _ in minus], [rng.random() < rawp for _ in plus]))
     return blocks
 
 
 def run_blocks(ctx, rep, hook, mdl):
     rng = ctx.rng
+    raw_ok = raw_lines_supported(hook)
     reqs, sticky, meta = [], [], []
     for ci in range(ctx.n(8, 40)):
         sbs = ci % 2 == 1
@@ -681,7 +708,7 @@ def run_blocks(ctx, rep, hook, mdl):
             args += ["--line-numbers-left-format=" + fl.text(), "--line-numbers-right-format=" + fr.text()]
         sticky.append(len(reqs)); reqs.append("cfg " + " ".join(hx(x) for x in args)); meta.append(None)
         for _ in range(ctx.n(20, 120)):
-            blocks = gen_blocks(rng, sbs, width // 2 - 24)
+            blocks = gen_blocks(rng, sbs, width // 2 - 24, raw_ok)
             a, c = gen_start(rng), gen_start(rng)
             nm = sum(len(b[1]) for b in blocks if b[0] == "s") + sum(1 for b in blocks if b[0] == "z")
             np_ = sum(len(b[2]) for b in blocks if b[0] == "s") + sum(1 for b in blocks if b[0] == "z")
@@ -690,7 +717,9 @@ def run_blocks(ctx, rep, hook, mdl):
                 if b[0] == "z":
                     r += f" 0 {hx(b[1])}"
                 else:
-                    r += f" 1 {len(b[1])} " + " ".join(hx(x) for x in b[1]) + f" {len(b[2])} " + " ".join(hx(x) for x in b[2])
+                    r += f" 1 {len(b[1])} " + " ".join(hxl(x, q) for x, q in zip(b[1], b[3])) + f" {len(b[2])} " + " ".join(hxl(x, q) for x, q in zip(b[2], b[4]))
+                    if any(b[3]) or any(b[4]):
+                        rep.count("blocks:raw-line-states:" + ("sbs" if sbs else "unified"))
             reqs.append(" ".join(r.split()))
             meta.append((ci, sbs, args, fl, fr, a, c, nm, np_, blocks))
     impl = hook.ask(reqs, sticky=sticky)
@@ -718,7 +747,8 @@ def run_blocks(ctx, rep, hook, mdl):
                 wl, pos = parse_counts(f, pos)
                 wr, pos = parse_counts(f, pos)
                 out.append(("s", rows, al, wl, wr))
-                spec += f" 1 {len(b[1])} {len(b[2])} {fmt_al(al)} {len(wl)} " + " ".join(map(str, wl)) + f" {len(wr)} " + " ".join(map(str, wr))
+                spec += f" 1 {len(b[1])} {len(b[2])} {fmt_al(al)} {len(wl)} " + " ".join(map(str, wl)) + f" {len(wr)} " + " ".join(map(str, wr)) \
+                    + " " + flags(b[3]) + " " + flags(b[4])
         left, right, lw, rw, pl, pr = (int(x) for x in f[pos:pos + 6])
         parsed[k] = (out, left, right, lw, rw, pl, pr)
         mreqs.append(" ".join(spec.split())); back.append(k)
